@@ -162,3 +162,61 @@ func H_C10_requestAfterRestore() {
 	sc.svc.OnMessageReceived(vPeer, vHexType(messages.MESSAGETYPE_SWAPINREQUEST), vMarshal(m))
 	zzverif.Assert(vNonTerminalOnChannel(sc, a, b, c) <= 1, "C10.one_non_terminal_swap_per_channel_after_restore")
 }
+
+// H_C10_requestWhileInitiating: schedules.  While a local initiation for a channel is under way (the
+// service is inside a collaborator call between taking the channel and sending the request), a peer's
+// request for the same channel - in either spelling - is handled by the message goroutine.  Whatever the
+// order in which the two finish, the node must not end up with two non-terminal swaps on the channel.
+// Decided with a second logical goroutine started at the yield point (natively a real goroutine started
+// from the wallet / messenger stub).  Bounds: one concurrent request, one yield point (wallet lookup or
+// the request send), no injected faults, default premium rate in force; Liquid in the thorough tier only.
+func H_C10_requestWhileInitiating() {
+	a, b, c := "539268", "845", "1"
+	env := newEnv(true, true)
+	w := env.w
+	w.maxFaults = 0
+	env.policy.newSwaps, env.policy.allowed, env.policy.suspicious, env.policy.minMsat = true, true, false, 0
+	svc := NewSwapService(env.services)
+	zzverif.Unwind(16)
+	// which premium rate applies is irrelevant for the channel lock: the default rate is the one in force
+	zzverif.Assume(!w.rates.peerSet && w.rates.defSet)
+	liquid := zzverif.Thorough() && zzverif.Bool("liquid")
+	asset, network := vChainFields(liquid)
+	chain := "btc"
+	if liquid {
+		chain = "lbtc"
+	}
+	id := vSwapId("new.id")
+	peerScid := vScid(a, b, c, zzverif.Bool("peer.colon"))
+	peerSwapIn := zzverif.Bool("peer.swapin")
+	peerAmount, peerLimit, peerKey := zzverif.U64("peer.amount"), zzverif.I64("peer.limit"), zzverif.HexStr("peer.pubkey", 33)
+	if zzverif.Bool("yield.at_send") {
+		w.yieldAt = "send"
+	} else {
+		w.yieldAt = "wallet"
+	}
+	w.interleave = func() {
+		if peerSwapIn {
+			m := &SwapInRequestMessage{ProtocolVersion: 7, SwapId: id, Asset: asset, Network: network, Scid: peerScid, Amount: peerAmount, Pubkey: peerKey, PremiumLimit: peerLimit}
+			svc.OnMessageReceived(vPeer, vHexType(messages.MESSAGETYPE_SWAPINREQUEST), vMarshal(m))
+		} else {
+			m := &SwapOutRequestMessage{ProtocolVersion: 7, SwapId: id, Asset: asset, Network: network, Scid: peerScid, Amount: peerAmount, Pubkey: peerKey, PremiumLimit: peerLimit}
+			svc.OnMessageReceived(vPeer, vHexType(messages.MESSAGETYPE_SWAPOUTREQUEST), vMarshal(m))
+		}
+	}
+	localScid := vScid(a, b, c, zzverif.Bool("local.colon"))
+	localAmount, localLimit := zzverif.U64("local.amount"), zzverif.I64("local.limitppm")
+	// the domain of the premium arithmetic shortcut (vCheapCompute), stated once up front
+	zzverif.Assume(localAmount <= 1<<40 && peerAmount <= 1<<40 && localLimit <= 1000000 && localLimit >= -1000000)
+	zzverif.Assume(w.rates.peerPpm <= 1000000 && w.rates.peerPpm >= -1000000 && w.rates.defPpm <= 1000000 && w.rates.defPpm >= -1000000)
+	if zzverif.Bool("local.swapout") {
+		svc.SwapOut(vPeer, chain, localScid, "initiator", localAmount, localLimit)
+	} else {
+		svc.SwapIn(vPeer, chain, localScid, "initiator", localAmount, localLimit)
+	}
+	zzverif.Assert(zzverif.Blocked() == 0, "C10.concurrent_request_completes")
+	if w.interleaved {
+		zzverif.Reach("c10.request_raced_initiation")
+	}
+	zzverif.Assert(vActiveOnChannel(svc, a, b, c) <= 1, "C10.one_active_swap_per_channel_concurrent")
+}
